@@ -427,12 +427,16 @@ class Tr:
                 return V("none", O(ANY))
             if isinstance(v, int) and v >= 0:
                 return V(str(v), None, lit=v, nonneg=True)
+            if isinstance(v, float) and v == 0.5:
+                return V("(1 / 2 : Rat)", Q, 100)
             raise Shape("literal %r" % (v,))
         if isinstance(node, ast.Name):
             v = self.lookup(node.id)
             if v is None:
                 raise Shape("name %s is not bound in the translated code" % node.id)
             return v
+        if isinstance(node, ast.Attribute) and dotted(node) == "np.inf":
+            return V("none", O(ANY))                   # the start of a running minimum
         if isinstance(node, ast.Tuple):
             cs = [self.expr(e) for e in node.elts]
             cs = [self.materialise(c) if c.vec is not None else c for c in cs]
@@ -522,6 +526,8 @@ class Tr:
         a, b = self.expr(l), self.expr(r)
         if a.vec is not None or b.vec is not None:
             raise Shape("comparison of arrays outside the idiom table")
+        if isinstance(op, ast.LtE) and a.ty == O(N) and b.lit is None and b.ty == N:
+            return V("leTop %s %s" % (paren(a, 100), paren(b, 100)), B, 90)
         a, b = self.unify(a, b)
         if isinstance(op, (ast.Gt, ast.GtE)):
             a, b = b, a
@@ -681,6 +687,10 @@ class Tr:
             if v.ty is None or v.ty.k != "L":
                 raise Shape("list(...) of a non-list")
             return v
+        if name == "min" and len(node.args) == 2 and not node.keywords:
+            a0, b0 = self.expr(node.args[0]), self.expr(node.args[1])
+            if b0.ty == O(N) and a0.lit is None and a0.ty == N:
+                return V("minTop %s %s" % (paren(a0, 100), paren(b0, 100)), N, 90, nonneg=True)
         if name in ("max", "min") and len(node.args) == 2 and not node.keywords:
             a, b = self.unify(self.expr(node.args[0]), self.expr(node.args[1]))
             nn = (a.nonneg or b.nonneg) if name == "max" else (a.nonneg and b.nonneg)
@@ -748,8 +758,28 @@ class Tr:
         fn = self.unit.fns.get(name)
         if fn is None:
             raise Shape("function %s not found" % name)
+        extra = []
+        occ = self.unit.call_count.get((self.cfg["lean"], name), 0)
+        self.unit.call_count[(self.cfg["lean"], name)] = occ + 1
+        per_call = self.cfg.get("extra_args", {}).get(name)
+        if per_call is not None:                              # the recorded random draws this call receives (by occurrence)
+            if occ >= len(per_call):
+                raise Shape("no draw parameters in the table for call %d of %s" % (occ + 1, name))
+            for pn in per_call[occ]:
+                v = self.lookup(pn)
+                if v is None:
+                    raise Shape("draw parameter %s" % pn)
+                extra.append(v)
+        lst_name = self.cfg.get("draws", {}).get(name)
+        if lst_name is not None:                              # one recorded `np.random.choice` draw per call, from the head of a list
+            lst = self.lookup(lst_name)
+            x, l1 = self.fresh("y0"), self.fresh(lst_name)
+            self.pre.append(lambda body, lst=lst, x=x, l1=l1: Arms(lst.t, [("[]", Fail("PyErr.draws")), ("%s :: %s" % (x, l1), body)]))
+            self.env[lst_name] = V(l1, lst.ty)
+            extra.append(V(x, N, nonneg=True))
+        if len(extra) != len(cfg.get("extra_params", [])):
+            raise Shape("the call of %s does not supply its draw parameters" % name)
         args = self.call_args(fn, node, cfg["params"])
-        extra = [self.cast(self.expr(ast.parse(e, mode="eval").body), t) for e, t in self.cfg.get("extra_args", {}).get(name, [])]
         text = " ".join([cfg["lean"]] + [paren(a, 100) for a in extra + args])
         return self.bind_value(text, cfg["ret"])
 
@@ -799,6 +829,9 @@ class Tr:
             return end()
         s, rest = stmts[0], list(stmts[1:])
         k = lambda: self.block(rest, end)      # noqa: E731
+        if ast.unparse(s) in self.cfg.get("skip", ()):            # not translated: stays in the skeleton as text
+            self.unit.skipped.append(ast.unparse(s))
+            return k()
         self.unit.seen.add(id(s))
         if isinstance(s, ast.Expr) and isinstance(s.value, ast.Constant) and isinstance(s.value.value, str):
             return k()
@@ -812,7 +845,14 @@ class Tr:
                 raise Shape("statements after return")
             if s.value is None:
                 raise Shape("bare return")
-            return self.under(lambda: self.cast(self.expr(s.value), self.cfg["ret"]), lambda v: Ret(v.t))
+            def retval():
+                v = self.expr(s.value)
+                if v.ty == O(N) and self.cfg["ret"] == N:          # a running minimum that started at np.inf is returned as a number
+                    x = self.fresh("t")
+                    self.pre.append(lambda body, v=v, x=x: Arms(v.t, [("none", Fail("PyErr.infinite")), ("some %s" % x, body)]))
+                    return V(x, N, nonneg=True)
+                return self.cast(v, self.cfg["ret"])
+            return self.under(retval, lambda v: Ret(v.t))
         if isinstance(s, ast.Assign):
             if len(s.targets) != 1:
                 raise Shape("chained assignment")
@@ -1036,6 +1076,17 @@ class Tr:
             t.env[py] = V(t.fresh(py), v.ty, nonneg=v.ty == N)
         return t
 
+    def drawn_in(self, stmts):
+        """the draw lists that calls inside `stmts` consume"""
+        out = []
+        for st in stmts:
+            for n in ast.walk(st):
+                if isinstance(n, ast.Call) and dotted(n.func) in self.cfg.get("draws", {}):
+                    l = self.cfg["draws"][dotted(n.func)]
+                    if l not in out:
+                        out.append(l)
+        return out
+
     def loop_name(self):
         self.loops += 1
         root = self
@@ -1081,7 +1132,7 @@ class Tr:
         if idx >= len(bounds):
             raise Shape("no iteration bound in the table for this while loop")
         bound = self.cast(self.expr(template(bounds[idx])), N)
-        carried = self.unit.order([n for n in assigned_names(s.body) if self.lookup(n) is not None])
+        carried = self.unit.order([n for n in assigned_names(s.body) + self.drawn_in(s.body) if self.lookup(n) is not None])
         name = self.loop_name()
         t = self.sub(carried)
         t.loops = self.loops
@@ -1226,7 +1277,7 @@ class Unit:
         self.targets = {c["func"]: c for c in TARGETS if c.get("region", "function") == "function"}
         self.pinned = {c["func"]: c for c in TARGETS if c.get("region") == "pin" and c.get("model")}
         self.aux, self.conversions, self.seen, self.while_count, self.nested_caps, self.draws_used = [], [], set(), {}, {}, []
-        self.scope = []
+        self.scope, self.call_count = [], {}
 
     def order(self, names):
         return sorted(names, key=lambda n: self.scope.index(n) if n in self.scope else len(self.scope))
@@ -1272,7 +1323,8 @@ class Unit:
         if [x.arg for x in a.args] != [p for p, _ in cfg["params"]]:
             raise Shape("parameters of %s are %s, expected %s" % (fn.name, [x.arg for x in a.args], [p for p, _ in cfg["params"]]))
         self.aux, self.conversions, self.seen, self.nested_caps, self.draws_used = [], [], set(), {}, []
-        self.scope = [x.arg for x in a.args] + assigned_names(body)
+        self.call_count, self.skipped = {}, []
+        self.scope = [x.arg for x in a.args] + [n for n, _ in cfg.get("extra_params", [])] + assigned_names(body)
         t = Tr(self, cfg)
         binders = []
         for lean, ty in cfg.get("extra_params", []):
@@ -1288,6 +1340,8 @@ class Unit:
         node = t.block(body, no_end(fn.name))
         if t.pre:
             raise Shape("internal: pending hoists")
+        if sorted(self.skipped) != sorted(cfg.get("skip", ())):
+            raise Shape("the statements that the table leaves untranslated were not all found")
         defs = list(self.aux)
         defs.append("def %s %s : Except PyErr %s :=\n%s" % (cfg["lean"], group_binders(binders), cfg["ret"].lean(True),
                                                              "\n".join(render(node, "  "))))
@@ -1508,18 +1562,56 @@ TARGETS.append(dict(
     extra_params=[("y0", N)], draw_param="y0", local_types={"distortion": N}, skeleton="...",
     obligations=OBLIGATIONS.get("construct_mapping", [])))
 
+# ---- find_ub_of_min_distortion  ->  findUbOfMinDistortion (the lazy generator of permutations and the first images are parameters)
+TARGETS.append(dict(
+    func="find_ub_of_min_distortion", lean="find_ub_of_min_distortion",
+    params=[("DX", MAT), ("DY", MAT), ("mapping_sample_size_order", None), ("goal_distortion", N)], ret=N,
+    extra_params=[("permutations_generator", L(L(N))), ("y0s", L(N))], generators=("permutations_generator",),
+    draws={"construct_mapping": "y0s"}, local_types={"ub_of_min_distortion": O(N)},
+    skip=["n_mappings_to_sample = int(np.ceil(np.prod(np.array([len(DX), np.log(len(DX) + 1)]) ** mapping_sample_size_order)))",
+          "permutations_generator = (np.random.permutation(len(DX)) for _ in range(n_mappings_to_sample))"],
+    while_bounds=["len(permutations_generator) + 1"],
+    skeleton="n_mappings_to_sample = int(np.ceil(np.prod(np.array([len(DX), np.log(len(DX) + 1)]) ** mapping_sample_size_order)))\n"
+             "permutations_generator = (np.random.permutation(len(DX)) for _ in range(n_mappings_to_sample))\n...",
+    obligations=OBLIGATIONS.get("find_ub_of_min_distortion", [])))
+
+# ---- find_ub  ->  findUb (one list of permutations and of first images per direction)
+DRAW4 = [("permsXY", L(L(N))), ("y0sXY", L(N)), ("permsYX", L(L(N))), ("y0sYX", L(N))]
+TARGETS.append(dict(
+    func="find_ub", lean="find_ub",
+    params=[("DX", MAT), ("DY", MAT), ("mapping_sample_size_order", None), ("double_lb", N)], ret=N, extra_params=DRAW4,
+    extra_args={"find_ub_of_min_distortion": [["permsXY", "y0sXY"], ["permsYX", "y0sYX"]]}, skeleton="...",
+    obligations=OBLIGATIONS.get("find_ub", [])))
+
+# ---- estimate  ->  estimate exactMul exactMul (the dtype guards at its entry are pinned as text)
+EST_SKIP = ["if not np.issubdtype(DX.dtype, np.integer) or not np.issubdtype(DY.dtype, np.integer):\n"
+            "    raise ValueError('non-integer metrics are not yet supported')",
+            "if np.issubdtype(DX.dtype, np.uint):\n    DX = cast_distance_matrix_to_optimal_int_type(DX)",
+            "if np.issubdtype(DY.dtype, np.uint):\n    DY = cast_distance_matrix_to_optimal_int_type(DY)"]
+TARGETS.append(dict(
+    func="estimate", lean="estimate", params=[("DX", MAT), ("DY", MAT), ("mapping_sample_size_order", None)], ret=T(Q, Q),
+    extra_params=DRAW4, extra_args={"find_ub": [["permsXY", "y0sXY", "permsYX", "y0sYX"]]}, skip=EST_SKIP,
+    skeleton="\n".join(EST_SKIP) + "\n...",
+    obligations=OBLIGATIONS.get("estimate", [])))
+
 
 BINDINGS = {KEY: [
     ('AttributeError', 'builtin'),
+    ('DEFAULT_MAPPING_SAMPLE_SIZE_ORDER', 'assign: DEFAULT_MAPPING_SAMPLE_SIZE_ORDER = np.array([0.5, 1])'),
     ('StopIteration', 'builtin'),
+    ('ValueError', 'builtin'),
     ('abs', 'builtin'),
+    ('cast_distance_matrix_to_optimal_int_type', 'def cast_distance_matrix_to_optimal_int_type'),
     ('check_assignment_feasibility', 'def check_assignment_feasibility'),
     ('confirm_lb_using_bounded_curvature', 'def confirm_lb_using_bounded_curvature'),
     ('confirm_lb_using_bounded_curvature_row', 'def confirm_lb_using_bounded_curvature_row'),
     ('construct_mapping', 'def construct_mapping'),
     ('determine_optimal_int_type', 'def determine_optimal_int_type'),
+    ('estimate', 'def estimate'),
     ('find_largest_size_bounded_curvature', 'def find_largest_size_bounded_curvature'),
     ('find_lb', 'def find_lb'),
+    ('find_ub', 'def find_ub'),
+    ('find_ub_of_min_distortion', 'def find_ub_of_min_distortion'),
     ('find_unique_max_distributions', 'def find_unique_max_distributions'),
     ('int', 'builtin'),
     ('len', 'builtin'),
@@ -1541,6 +1633,9 @@ SIGNATURES = {
     'confirm_lb_using_bounded_curvature': 'def confirm_lb_using_bounded_curvature(d, K, DY, max_diam)',
     'find_lb': 'def find_lb(DX, DY)',
     'construct_mapping': 'def construct_mapping(DX, DY, pi)',
+    'find_ub_of_min_distortion': 'def find_ub_of_min_distortion(DX, DY, mapping_sample_size_order=DEFAULT_MAPPING_SAMPLE_SIZE_ORDER, goal_distortion=0)',
+    'find_ub': 'def find_ub(DX, DY, mapping_sample_size_order=DEFAULT_MAPPING_SAMPLE_SIZE_ORDER, double_lb=0)',
+    'estimate': 'def estimate(DX, DY, mapping_sample_size_order=DEFAULT_MAPPING_SAMPLE_SIZE_ORDER)',
 }
 
 
